@@ -2,5 +2,6 @@ SPECIFICATION Spec
 CONSTANTS
   VerifyBeforeFormula = TRUE
   ResetRecurses = TRUE
+  ResetStopsAtUncached = FALSE
 INVARIANT Judged
 CHECK_DEADLOCK FALSE
